@@ -3,11 +3,12 @@
 Two engines share one operation generator (``pick_op``):
 
 * ``history``  - Hypothesis-driven operation sequences (up to 50 steps) on universes of 3-8 units
-  (seven port layouts) and 5-10 streams built through the unit constructor;
+  (seven port layouts) and 5-10 streams built through the unit constructor, or on the small universes;
 * ``bfs``      - explicit-state breadth-first enumeration of *every* operation sequence of the small
-  alphabet on the 3-unit / 5-stream universe (two initial configurations) to depth 3 (quick) or 4
-  (thorough).  The enumerator drives ``pick_op`` with an exhaustive chooser, so each enumerated
-  sequence *is* a log of the ``history`` check and is executed through it (from scratch).
+  alphabet on the 3-unit / 5-stream universe: flowsheets A and B to depth 3 (quick); A to depth 4, B and C
+  to depth 3 (thorough).  The enumerator drives ``pick_op`` with an exhaustive chooser, so each enumerated
+  sequence *is* a log of the ``history`` check; failures are stored as ``history`` cases and replayed from
+  scratch.  (States are rebuilt from scratch, operations are tried on a restored snapshot; see ``prop_bfs``.)
 
 The oracle is an independent walk over all units and streams after every step.
 """
@@ -15,7 +16,7 @@ from __future__ import annotations
 
 import thermosteam as tmo
 from thermosteam import network as nw
-from vlib.runner import Chooser, Violation, HarnessError, Reject
+from vlib.runner import Chooser, Violation, HarnessError
 
 PROPERTY = 'C18'
 EXHAUSTIVE = True
@@ -332,7 +333,7 @@ def build_unit(ctx, w, cname, ins_spec, outs_spec):
     return region
 
 
-def draw_port_spec(ch, w, cname, side, other_refs=()):
+def draw_port_spec(ch, w, cname, side):
     n, fx = LAYOUT[cname][side], LAYOUT[cname][2 + side]
     form = pick(ch, 'form', ['none', 'empty', 'one', 'list'])
     if form in ('none', 'empty'):
@@ -783,6 +784,15 @@ def apply_op(ctx, w, op):
         if via == 'item':
             def f(): L[i] = o
         elif via == 'pipe':
+            if sd == 0 and o.source is not None:
+                # fetch the stream through the getter forms u-j / [j]-u of its source, as in P1-0-1-M1
+                src = o.source
+                j = [k for k, q in enumerate(src.outs) if q is o][0]
+                got = ctx.call('pipe-getter', lambda: src - j, region='u-j')
+                got2 = ctx.call('pipe-getter', lambda: src - [j], region='u-[j]')
+                if got is not o or got2 != [o]:
+                    ctx.fail('pipe-getter|u-j|wrong-stream', f'unit - {j} did not return the stream at outs[{j}]')
+                ctx.cell('via:getter')
             if sd == 0:
                 def f(): o - i - u
             else:
